@@ -17,7 +17,7 @@ import (
 func NewUnixFSFile(ctx context.Context, substrate ipld.Node, lsys *ipld.LinkSystem) (LargeBytesNode, error) {
 	if substrate.Kind() == ipld.Kind_Bytes {
 		// A raw / single-node file.
-		return &singleNodeFile{substrate}, nil
+		return &singleNodeFile{Node: substrate}, nil
 	}
 	// see if it's got children.
 	links, err := substrate.LookupByString("Links")
@@ -66,6 +66,9 @@ type LargeBytesNode interface {
 
 type singleNodeFile struct {
 	ipld.Node
+	// substrate is the node this file was reified from when that is not the
+	// bytes node being read (a dag-pb node carrying the bytes inline).
+	substrate ipld.Node
 }
 
 func (f *singleNodeFile) AsLargeBytes() (io.ReadSeeker, error) {
@@ -73,6 +76,9 @@ func (f *singleNodeFile) AsLargeBytes() (io.ReadSeeker, error) {
 }
 
 func (f *singleNodeFile) Substrate() datamodel.Node {
+	if f.substrate != nil {
+		return f.substrate
+	}
 	return f.Node
 }
 
